@@ -25,6 +25,38 @@ def c02_order():
         return errs[:2]
     finally: g.terminate(2)
 
+def c02_big_concurrent():
+    """large items sent concurrently from several threads on several channels, then a send right after a rejected send on another channel"""
+    g, gw = gwpair()
+    try:
+        N, K = 3, 12
+        chans = [gw.remote_exec("for x in channel: channel.send(x)") for _ in range(N)]
+        errs = []
+        def item(i, k): return [(i, k, j) for j in range(4000)] + ["x" * 2000, {i: k}]
+        def sender(i, ch):
+            try:
+                for k in range(K): ch.send(item(i, k))
+            except Exception as e: errs.append(f"channel {i}: send raised {type(e).__name__}: {e}")
+        def receiver(i, ch):
+            try:
+                for k in range(K):
+                    x = ch.receive(T)
+                    if x != item(i, k): errs.append(f"channel {i}: item {k} arrived as something else ({str(x)[:40]!r}...)"); return
+            except Exception as e: errs.append(f"channel {i}: receive raised {type(e).__name__}: {e}")
+        ths = [threading.Thread(target=f, args=(i, ch)) for i, ch in enumerate(chans) for f in (sender, receiver)]
+        [t.start() for t in ths]; [t.join(60) for t in ths]
+        if not errs:
+            try: chans[0].send((7, object()))
+            except Exception as e:
+                if type(e).__name__ != "DumpError": errs.append(f"unsupported item raised {type(e).__name__}")
+            else: errs.append("unsupported item was accepted")
+            try:
+                chans[1].send(("after", 1)); x = chans[1].receive(T)
+                if x != ("after", 1): errs.append(f"item sent after a rejected send on another channel arrived as {x!r}")
+            except Exception as e: errs.append(f"send/receive after a rejected send on another channel raised {type(e).__name__}: {e}")
+        return errs[:3]
+    finally: g.terminate(2)
+
 def c02_dropped_callback():
     import gc
     g, gw = gwpair()
